@@ -253,6 +253,21 @@ class SourceFile:
         parts = [p.strip() for p in path.split(' :: ')]
         items = self.items
         found = None
+        if parts[0].endswith('!') and len(parts) > 1:
+            # `pin_project! :: struct X`: look inside every invocation of that macro, exactly one must contain the rest
+            hits = []
+            for it in items:
+                if it.kw == parts[0] and it.body_open is not None:
+                    sub = SourceFile.__new__(SourceFile)
+                    sub.path, sub.src, sub.mask = self.path, self.src, self.mask
+                    sub.items = self._children(it)
+                    try:
+                        hits.append(sub.find(' :: '.join(parts[1:])))
+                    except AnchorLost:
+                        pass
+            if len(hits) != 1:
+                raise AnchorLost('%s: item "%s" found %d times' % (self.path, path, len(hits)))
+            return hits[0]
         for part in parts:
             kw, _, rest = part.partition(' ')
             cands = []
